@@ -77,7 +77,7 @@ func (h *hist) listStep() {
 		switch h.r.IntN(4) {
 		case 0:
 			n := h.r.IntN(34)
-			h.derive("lazy-source", ref.Method(ref.Static("numbers", ref.Int(int64(n))), "map", ref.Clo([]string{"x"}, ref.Bin("+", ref.Id("x"), ref.Int(1)))))
+			h.hush(h.derive("lazy-source", ref.Method(ref.Static("numbers", ref.Int(int64(n))), "map", ref.Clo([]string{"x"}, ref.Bin("-", ref.Int(int64(n)), ref.Bin("*", ref.Id("x"), ref.Int(3)))))))
 		case 1:
 			// constant-folded list: the same object at every evaluation of this function
 			h.derive("constant", ref.Method(ref.ListN(ref.Int(1), ref.Int(2), ref.Int(3)), "append", ref.Int(4)))
@@ -89,6 +89,38 @@ func (h *hist) listStep() {
 				items = append(items, ref.Int(int64(h.r.IntN(9))))
 			}
 			h.derive("literal", ref.ListN(items...))
+		}
+		return
+	}
+	// a lazily produced list nobody has looked at yet: apply an operation that has to materialise it
+	// (and, in the library, works on a private copy), then - later - look at the parent
+	var quiet []*handle
+	for _, x := range ls {
+		if x.quiet > 0 {
+			quiet = append(quiet, x)
+		}
+	}
+	if len(quiet) > 0 && h.r.IntN(5) != 0 {
+		p := quiet[h.r.IntN(len(quiet))]
+		neg := ref.Clo([]string{"x"}, ref.Un("-", ref.Id("x")))
+		switch h.r.IntN(8) {
+		case 0:
+			h.derive("set-unevaluated", ref.Method(h0, "set", ref.Int(int64(h.r.IntN(3))), ref.Int(int64(100+h.r.IntN(900)))), p)
+		case 1:
+			h.derive("reverse-unevaluated", ref.Method(h0, "reverse"), p)
+		case 2:
+			h.derive("order-unevaluated", ref.Method(h0, "order", neg), p)
+		case 3:
+			h.derive("orderRev-unevaluated", ref.Method(h0, "orderRev", ref.Clo([]string{"x"}, ref.Id("x"))), p)
+		case 4:
+			h.derive("orderLess-unevaluated", ref.Method(h0, "orderLess", ref.Clo([]string{"x", "y"}, ref.Bin(">", ref.Id("x"), ref.Id("y")))), p)
+		case 5:
+			// list ~ list removes found items from a working copy of the left list
+			h.derive("contains-unevaluated", ref.ListN(ref.Try(ref.Bin("~", h0, ref.Id("h1")), ref.Bool(false))), p, ls[h.r.IntN(len(ls))])
+		case 6:
+			h.derive("contains-right-unevaluated", ref.ListN(ref.Try(ref.Bin("~", ref.Id("h1"), h0), ref.Bool(false))), p, ls[h.r.IntN(len(ls))])
+		default:
+			h.derive("append-unevaluated", ref.Method(h0, "append", ref.Int(int64(100+h.r.IntN(900)))), p)
 		}
 		return
 	}
@@ -110,13 +142,13 @@ func (h *hist) listStep() {
 	case 8:
 		h.derive("orderLess", ref.Method(h0, "orderLess", ref.Clo([]string{"x", "y"}, ref.Bin("<", ref.Id("x"), ref.Id("y")))), p)
 	case 9:
-		h.derive("+", ref.Bin("+", h0, ref.Id("h1")), p, ls[h.r.IntN(len(ls))])
+		h.hush(h.derive("+", ref.Bin("+", h0, ref.Id("h1")), p, ls[h.r.IntN(len(ls))]))
 	case 10:
-		h.derive([]string{"top", "skip"}[h.r.IntN(2)], ref.Method(h0, []string{"top", "skip"}[h.r.IntN(2)], ref.Int(int64(h.r.IntN(5)))), p)
+		h.hush(h.derive([]string{"top", "skip"}[h.r.IntN(2)], ref.Method(h0, []string{"top", "skip"}[h.r.IntN(2)], ref.Int(int64(h.r.IntN(5)))), p))
 	case 11:
-		h.derive("map", ref.Method(h0, "map", ref.Clo([]string{"x"}, ref.Bin("+", ref.Id("x"), ref.Int(1000)))), p)
+		h.hush(h.derive("map", ref.Method(h0, "map", ref.Clo([]string{"x"}, ref.Bin("+", ref.Id("x"), ref.Int(1000)))), p))
 	case 12:
-		h.derive("accept", ref.Method(h0, "accept", ref.Clo([]string{"x"}, ref.Bin("!=", ref.Bin("%", ref.Id("x"), ref.Int(3)), ref.Int(0)))), p)
+		h.hush(h.derive("accept", ref.Method(h0, "accept", ref.Clo([]string{"x"}, ref.Bin("!=", ref.Bin("%", ref.Id("x"), ref.Int(3)), ref.Int(0)))), p))
 	case 13:
 		h.derive("eval", ref.Method(h0, "eval"), p)
 	case 14:
@@ -124,6 +156,14 @@ func (h *hist) listStep() {
 		h.derive("partial", ref.ListN(ref.Try(ref.Method(h0, "first"), ref.Int(-1)), ref.Method(ref.Method(h0, "top", ref.Int(int64(h.r.IntN(4)))), "size")), p)
 	default:
 		h.derive("replaceList", ref.Method(h0, "replaceList", ref.Clo([]string{"l"}, ref.Method(ref.Id("l"), "append", item))), p)
+	}
+}
+
+// hush keeps a freshly made lazy list unobserved for one or two steps (a third of the time).
+func (h *hist) hush(nh *handle) {
+	if nh != nil && h.r.IntN(3) == 0 {
+		nh.quiet = 1 + h.r.IntN(2)
+		h.c.Count("handles_left_unevaluated", 1)
 	}
 }
 
@@ -230,10 +270,26 @@ func (c09) Run(c *wk.Case) {
 		}
 		// observe ALL live handles
 		for i := range h.hs {
+			if h.hs[i].quiet > 0 {
+				h.hs[i].quiet--
+				continue
+			}
 			if !h.observeList(i) {
 				return
 			}
 			if (mode == 3 || mode == 2) && !h.observeMapLight(i) {
+				return
+			}
+		}
+	}
+	// final look at everything, including the handles kept unevaluated so far
+	for i := range h.hs {
+		if h.failed {
+			return
+		}
+		if h.hs[i].quiet > 0 {
+			h.hs[i].quiet = 0
+			if !h.observeList(i) {
 				return
 			}
 		}
